@@ -136,6 +136,16 @@ func rejectText(res *TLCResult) string {
 	return fmt.Sprintf("the recorded execution is not a behaviour of the specification: event %d has no matching action", res.Distinct)
 }
 
+// offendingEventFull returns the whole trace line TLC could not match.
+func offendingEventFull(it traceItem, res *TLCResult) string {
+	lines := bytes.Split(it.Trace, []byte("\n"))
+	i := int(res.Distinct) - 1
+	if i >= 0 && i < len(lines) {
+		return string(lines[i])
+	}
+	return ""
+}
+
 // offendingEvent returns the trace line TLC could not match.
 func offendingEvent(it traceItem, res *TLCResult) string {
 	lines := bytes.Split(it.Trace, []byte("\n"))
